@@ -554,8 +554,10 @@ def run_case(case, ch: Choices) -> RunResult:
                 return cls(url="http://gql.test/graphql", http_client=httpx.AsyncClient(transport=AsyncSimTransport(srv)))
             return cls(url="http://gql.test/graphql", http_client=httpx.Client(transport=SyncSimTransport(srv)))
 
-        def send(client, op, pkg):
-            fields = [interpret(e, pkg, schema, snake, root_kind=op["kind"]) for e in op["fields"]]   # harness + builder API
+        def send(client, op, pkg, prebuilt=None):
+            fields = prebuilt if prebuilt is not None else \
+                [interpret(e, pkg, schema, snake, root_kind=op["kind"]) for e in op["fields"]]   # harness + builder API
+            last_built[0] = fields
             n0 = len(captured)
             meth = getattr(client, op["kind"])
             try:
@@ -572,6 +574,8 @@ def run_case(case, ch: Choices) -> RunResult:
             caps = captured[n0:]
             return (caps[-1] if caps else None), None
 
+        last_built: List[Any] = [None]
+        built_ops: List[Tuple[dict, list]] = []     # (expression, the live top-level objects built for it)
         eg = ExprGen(ch, schema, snake)
         client = make_client(live)
         nops = p.get("nops") or (2 + ch.draw("h.nops", 11))
@@ -580,7 +584,19 @@ def run_case(case, ch: Choices) -> RunResult:
         trace = ["world=%s async=%s snake=%s config=%s" % (world.get("id", "drawn"), is_async, snake, json.dumps(cfg))]
         sent_docs = []
         for i in range(nops):
-            if history and ch.chance("h.resend", 1, 6):
+            prebuilt = None
+            if built_ops and ch.chance("h.reuse_objects", 1, 5):
+                # send the very objects of an earlier operation again (a user keeps a built selection and re-sends it),
+                # with the top-level fields rotated so that they sit at other positions than before
+                src_op, objs = built_ops[ch.draw("h.whichobj", len(built_ops))]
+                rot = ch.draw("h.rot", len(objs))
+                idxs = list(range(len(objs)))[rot:] + list(range(len(objs)))[:rot]
+                if ch.chance("h.drop", 1, 3) and len(idxs) > 1:
+                    idxs = idxs[1:]
+                op = dict(src_op, fields=[src_op["fields"][k] for k in idxs], name=ch.pick("o.name2", ["Again", src_op["name"]]))
+                prebuilt = [objs[k] for k in idxs]
+                res.bump("history.same_objects_resent")
+            elif history and ch.chance("h.resend", 1, 6):
                 op = history[ch.draw("h.which", len(history))]       # re-send a previously built tree (rebuilt from the same data)
                 res.bump("history.resend")
             else:
@@ -588,7 +604,9 @@ def run_case(case, ch: Choices) -> RunResult:
                 if op is None:
                     continue
             try:
-                cap, exc = send(client, op, live)
+                cap, exc = send(client, op, live, prebuilt)
+                if prebuilt is None and last_built[0]:
+                    built_ops.append((op, last_built[0]))
             except Unresolvable as u:
                 res.bump("expr.unresolvable")
                 res.observations.append("unresolvable:%s" % str(u)[:60])
